@@ -112,6 +112,7 @@ func runC20(t *zsim.Tape, cfg *hlib.Config) *hlib.Outcome {
 	}
 	w.StartScheduler()
 	w.SetKeepBias(sc.KeepBias)
+	w.MapMode = zsim.MapTape // the master's two range-over-map sites get tape-chosen orders too
 	k := zsim.NewKernel(w)
 	w.Enter()
 	defer w.Leave()
@@ -339,6 +340,9 @@ func runC20(t *zsim.Tape, cfg *hlib.Config) *hlib.Outcome {
 	sort.Strings(skeys)
 	out.Keys = append(skeys, fmt.Sprintf("il:%x", w.Interleaving()))
 	out.Note["steps"] = w.Steps()
+	for site, n := range w.MapPermute {
+		out.Note["permuted:"+site] += n
+	}
 	out.Note["worker-spawns"] = countEvents(k, "spawn")
 	fail := func(sig, detail string) *hlib.Outcome {
 		out.Sig = sig
